@@ -94,13 +94,37 @@ func c14CSSChild(args []string) int {
 			}
 			call(strings.Join(parts, gen.Pick(r, []string{" ", " ", ",", ", ", " / "})))
 		}
+		// long structured values: one functional notation whose argument list is n components joined by an
+		// operator or separator, with an acceptable and an unacceptable last component. Whatever a handler
+		// does with the inside of a function has to stay cheap; the worker's CPU limit is the oracle.
+		structured := 0
+		for _, fn := range cssFunctionNames {
+			for _, op := range []string{"+", "-", "*", "/", " + ", " - ", ",", ", ", " "} {
+				for _, tok := range []string{"1px", "1", "10%", "red"} {
+					for _, k := range []int{12, 24, 40, 64} {
+						body := strings.TrimSuffix(strings.Repeat(tok+op, k), op)
+						for _, v := range []string{fn + "(" + body + op + "9z)", fn + "(" + body + ")", fn + "(" + body + op + ")", "1px " + fn + "(" + body + op + "9z) 1px"} {
+							if structured%64 == 0 {
+								fmt.Fprintf(os.Stderr, "HUNT-INPUT %q %q\n", prop, v)
+							}
+							structured++
+							call(v)
+						}
+					}
+				}
+			}
+		}
 		cs.EvalN(n)
 		cs.Count("css_handler_hunt_calls", n)
+		cs.Count("css_handler_structured_long_values", structured)
 		cs.Nontrivial(core.Hash("css-hunt", prop))
 	})
 	fmt.Printf("\nVMON-CHILD-STATE %s\n", ctx.ExportState())
 	return 0
 }
+
+var cssFunctionNames = []string{"calc", "min", "max", "clamp", "var", "env", "attr", "url", "rgb", "rgba", "hsl", "hsla", "repeat", "minmax", "fit-content", "translate", "rotate", "scale", "matrix", "matrix3d", "perspective",
+	"cubic-bezier", "steps", "drop-shadow", "blur", "hue-rotate", "linear-gradient", "radial-gradient", "counter", "format", "local", "inset", "circle", "polygon", "rect", "image-set", "x"}
 
 // ---------------------------------------------------------------------------
 // families
